@@ -52,8 +52,8 @@ func c14Custom(ctx *Ctx) *Extra {
 
 func init() {
 	Register(&Spec{
-		ID:    "C14",
-		Level: "model_checking",
+		ID:          "C14",
+		Level:       "model_checking",
 		Explanation: "(1) bit-precise, all 65536 / 256 alphas as one symbolic value: NormalisedTo16Bit(float32(A)/65535)==A and the 8-bit twin. (2) wiring per colour space (bit-precise floats, tables as uninterpreted functions): every constructor returns alpha exactly A/max (bit pattern), transparent premultiplied/generic pixels decode to the zero colour, LineariseColor and EncodeColor leave the alpha channel bit-identical for every colour, opaque colours give identical results through the NRGBA, RGBA and generic constructors. (3) premultiplied validity: for each alpha a (one solver scope each) and every channel r<=a as a symbolic integer, the real code RGBFromEncoded -> ToLinearRGBA64 with an abstract table value t<=r/65535 yields a channel <= a (reals with rounding-error variables, integer truncation); the table lemma T16[r]<=r/65535 is discharged for all 3x65536 entries as ground obligations. Encode-side clipping and rounding of alpha for every float32 is C02's quantiser result",
 		Bounds: func(tier string) map[string]interface{} {
 			al := "every 64th alpha plus 1..4 and 65530..65535 (1033 values), each with all r<=a"
